@@ -15,6 +15,16 @@ together with a rotated + translated + re-ordered twin; the recorded bonds are j
 per criterion in which that criterion is the ONLY one excluding any pair; TLC classifies every pair and the harness
 requires the sole-excluder class of every family to be inhabited (vacuity -> exit 2).
 
+History / system families (extension): `hist` builds a System of 2-4 molecules (each with its OWN force field object: variables
+elastic_network_res_min_dist / elastic_network_bond_type present or not; one molecule with NaN coordinates in the selection, one whose
+UNSELECTED atoms have no position, one without any selected atom) and runs ONE ApplyRubberBand object over it with run_system -
+twice in half of the cases (`hist-twice`: the second call must ADD the same network again and leave everything that was there alone;
+what is judged is the set of bonds each call adds).  Every molecule of every call is one record judged by the same TLC operators.
+`lowdecay` (even / odd power with distances below the lower bound), `cyc` (ring-closing and branching cross-links: separation along
+the residue graph differs from the difference of residue numbers), `dupname` (selection by names that occur twice in a residue,
+through the selector the command line builds for -eb) and region lists with a shared hinge residue / nested / overlapping / reversed
+widen the sole-criterion families.  The real command line is harness/c15_real.py + spec/ElasticFiles.tla.
+
 Float boundary (stated tolerances): coordinates are integer picometres handed to vermouth as pm/1000 nm; a bond length
 must be a 5-decimal number (|len*1e5 - round| <= 1e-6) and is then compared exactly by TLC (nearest integer to
 100*sqrt(d2)); force constants are compared in units of 1e-6 with +-1 unit; exp() of the decay is evaluated here with
@@ -34,7 +44,8 @@ PID = 'C15'
 MICRO = 1000000
 SAT = 2000000000
 CRITERIA = ['sel', 'dom', 'sep', 'cut', 'force']
-FAMILIES = CRITERIA + ['mixed', 'nan']
+SOLE = {'sel': 'sel', 'dom': 'dom', 'sep': 'sep', 'cut': 'cut', 'force': 'force', 'lowdecay': 'force', 'cyc': 'sep'}   # family -> its sole excluder
+FAMILIES = CRITERIA + ['mixed', 'nan', 'lowdecay', 'cyc', 'dupname']
 
 TAB_CFG = ("SPECIFICATION Spec\nINVARIANT OpIsDecl\nINVARIANT BallIsWalk\nINVARIANT WellFormed\nINVARIANT SubSelection\n"
            "INVARIANT MonoSeparation\nINVARIANT MonoCutoff\nINVARIANT OrderInvariant\n")
@@ -43,12 +54,14 @@ TAB_CONSTS = {
               'Base': '500000000',
               'Partitions': '{<<1,2,3,4>>, <<1,1,2,3>>, <<1,2,1,2>>}',
               'ChainSplits': '{<<"A","A","A","A">>, <<"A","A","B","B">>}',
-              'DomKinds': '{"molecule", "chain", "regions"}', 'TabRegions': '<<<<1, 2>>, <<4, 3>>>>'},
+              'DomKinds': '{"molecule", "chain", "regions"}',
+              'TabRegions': '{<<<<1, 2>>, <<4, 3>>>>, <<<<1, 2>>, <<2, 3>>>>, <<<<3, 2>>, <<1, 4>>>>}'},
     'thorough': {'NB': '5', 'Spacing': '250', 'Ups': '{300, 500, 800, 1000}', 'Rmds': '0..3', 'Minfs': '{0, 500000000}',
                  'Base': '500000000',
                  'Partitions': '{<<1,2,3,4,5>>, <<1,1,2,3,3>>, <<1,2,2,3,4>>, <<1,2,1,2,3>>, <<1,1,1,2,2>>}',
                  'ChainSplits': '{<<"A","A","A","A","A">>, <<"A","A","B","B","B">>, <<"A","B","B","C","C">>}',
-                 'DomKinds': '{"molecule", "chain", "regions"}', 'TabRegions': '<<<<1, 2>>, <<4, 3>>>>'},
+                 'DomKinds': '{"molecule", "chain", "regions"}',
+                 'TabRegions': '{<<<<1, 2>>, <<4, 3>>>>, <<<<1, 2>>, <<2, 4>>>>, <<<<4, 2>>, <<1, 5>>>>, <<<<1, 3>>, <<2, 5>>>>}'},
 }
 RESNAMES = ['ALA', 'GLY', 'LYS', 'CYS']
 BEADNAMES = ['BB', 'SC1', 'SC2']
@@ -71,9 +84,9 @@ def _selector(spec):
         return selectors.select_backbone
     if kind == 'all':
         return selectors.select_all
-    if kind == 'names':
-        names = set(spec['names'])
-        return lambda atom: atom.get('atomname') in names
+    if kind == 'names':          # exactly what bin/martinize2 builds for -eb
+        import functools
+        return functools.partial(selectors.proto_select_attribute_in, attribute='atomname', values=list(spec['names']))
     return lambda atom: bool(atom.get('verif_sel'))
 
 
@@ -87,16 +100,28 @@ def _rotation(q):
                      [2 * (x * z - y * w), 2 * (y * z + x * w), 1 - 2 * (x * x + y * y)]])
 
 
-def build_molecule(sc, twin=False):
-    """Real Molecule of the scenario; returns (molecule, key -> particle index)."""
+def _spec_of(sc, key, effective):
+    """How the separation / the bond function type reaches the processor: {'given', 'val', 'ffhas', 'ffval'} (older scenarios and
+    TAB rows only say via_ff)."""
+    if key in sc:
+        return sc[key]
+    if sc.get('via_ff'):
+        return {'given': False, 'val': 0, 'ffhas': True, 'ffval': effective}
+    return {'given': True, 'val': effective, 'ffhas': False, 'ffval': 0}
+
+
+def build_molecule(sc, twin=False, moltype='verif_mol'):
+    """Real Molecule of the scenario (with a force field object of its own); returns (molecule, key -> particle index)."""
     import numpy as np
     from vermouth.molecule import Molecule
     from vermouth.forcefield import ForceField
-    ff = ForceField(name='verif_c15')
-    if sc['via_ff']:
-        ff.variables['elastic_network_res_min_dist'] = sc['rmd']
-        ff.variables['elastic_network_bond_type'] = 6
-    mol = Molecule(force_field=ff, nrexcl=1, meta={'moltype': 'verif_mol'})
+    ff = ForceField(name='verif_c15_' + moltype)
+    rs, bs = _spec_of(sc, 'rmdspec', sc['rmd']), _spec_of(sc, 'btspec', 6)
+    if rs['ffhas']:
+        ff.variables['elastic_network_res_min_dist'] = rs['ffval']
+    if bs['ffhas']:
+        ff.variables['elastic_network_bond_type'] = bs['ffval']
+    mol = Molecule(force_field=ff, nrexcl=1, meta={'moltype': moltype})
     lay = sc['twin'] if twin else sc['layout']
     keys, order = lay['keys'], lay['order']          # keys[i] = node key of particle i+1; order = insertion order
     rot = _rotation(lay['quat']) if lay.get('quat') else None
@@ -108,14 +133,16 @@ def build_molecule(sc, twin=False):
             attrs['chain'] = a['chain']
         if a['hasold']:
             attrs['_old_resid'] = a['old']
-        if a['nan']:
-            pos = np.array([float('nan') if f else 0.25 for f in a['nanmask']])
+        if a.get('nopos'):                            # an UNSELECTED atom without coordinates: key absent or None
+            if a['nopos'] == 'none':
+                attrs['position'] = None
+        elif a['nan']:
+            attrs['position'] = np.array([float('nan') if f else 0.25 for f in a['nanmask']])
         else:
             pos = np.array(a['pos'], dtype=float) / 1000.0
             if rot is not None:
                 pos = rot @ pos
-            pos = pos + shift
-        attrs['position'] = pos
+            attrs['position'] = pos + shift
         mol.add_node(keys[idx], **attrs)
     for i, j in sc['edges']:
         mol.add_edge(keys[i - 1], keys[j - 1])
@@ -124,10 +151,8 @@ def build_molecule(sc, twin=False):
     return mol, {k: i + 1 for i, k in enumerate(keys)}
 
 
-def run_real(sc, twin=False):
-    """Run the real processor; project the result to integers."""
+def make_processor(sc):
     from vermouth.processors import apply_rubber_band as arb
-    mol, index = build_molecule(sc, twin)
     dom = sc['dom']
     kwargs = {}
     if dom['kind'] == 'chain':
@@ -138,39 +163,116 @@ def run_real(sc, twin=False):
         kwargs['domain_criterion'] = arb.always_true
     if sc['selector']['kind'] != 'backbone' or sc.get('explicit_selector'):
         kwargs['selector'] = _selector(sc['selector'])
-    if not sc['via_ff']:
-        kwargs['res_min_dist'] = sc['rmd']
-        kwargs['bond_type'] = 6
-    proc = arb.ApplyRubberBand(lower_bound=sc['lo'] / 1000.0, upper_bound=sc['up'] / 1000.0,
+    rs, bs = _spec_of(sc, 'rmdspec', sc['rmd']), _spec_of(sc, 'btspec', 6)
+    if rs['given']:
+        kwargs['res_min_dist'] = rs['val']
+    if bs['given']:
+        kwargs['bond_type'] = bs['val']
+    return arb.ApplyRubberBand(lower_bound=sc['lo'] / 1000.0, upper_bound=sc['up'] / 1000.0,
                                decay_factor=sc['a'], decay_power=sc['p'],
                                base_constant=sc['base'] / MICRO, minimum_force=sc['minf'] / MICRO, **kwargs)
-    before = [(tuple(b.atoms), list(b.parameters), dict(b.meta)) for b in mol.interactions.get('bonds', [])]
-    logger = logging.getLogger(arb.__name__)
-    cap = _Capture()
-    old_level = logger.level
-    logger.addHandler(cap)
-    logger.setLevel(1)
+
+
+def _snapshot(mol):
+    return [(tuple(b.atoms), [repr(x) for x in b.parameters], sorted((str(k), repr(v)) for k, v in b.meta.items()))
+            for b in mol.interactions.get('bonds', [])]
+
+
+def _project(mol, index, before):
+    """Bonds of group "Rubber band" ADDED since `before`; others = everything that was there is still what and where it was and
+    nothing else was added."""
+    after = _snapshot(mol)
+    others = after[:len(before)] == before
+    bonds = []
+    for b in mol.interactions.get('bonds', [])[len(before):]:
+        if b.meta.get('group') != 'Rubber band':
+            others = False
+            continue
+        length, k = float(b.parameters[1]), float(b.parameters[2])
+        l5 = round(length * 1e5) if math.isfinite(length) else -1
+        if l5 >= 0 and abs(length * 1e5 - l5) > 1e-6:
+            l5 = -1                                   # not a 5-decimal number: TLC rejects the length
+        ki = round(k * MICRO) if math.isfinite(k) and abs(k) < 2000 else -1
+        try:
+            ft = int(b.parameters[0])
+        except (TypeError, ValueError):
+            ft = -1
+        bonds.append({'a': index[b.atoms[0]], 'b': index[b.atoms[1]], 'len': l5, 'k': ki, 'ft': ft})
+    return bonds, bool(others)
+
+
+class _Listen:
+    """Records what vermouth's apply_rubber_band logger emits while active."""
+    def __enter__(self):
+        from vermouth.processors import apply_rubber_band as arb
+        self.logger = logging.getLogger(arb.__name__)
+        self.cap = _Capture()
+        self.old_level = self.logger.level
+        self.logger.addHandler(self.cap)
+        self.logger.setLevel(1)
+        return self
+
+    def __exit__(self, *exc):
+        self.logger.removeHandler(self.cap)
+        self.logger.setLevel(self.old_level)
+
+    def warnings(self, needle=None):
+        n = 0
+        for r in self.cap.records:
+            if r.levelno < logging.WARNING:
+                continue
+            try:
+                text = r.getMessage()
+            except Exception:       # noqa
+                text = str(r.msg) + ' ' + ' '.join(str(a) for a in (r.args or ()))
+            if needle is None or needle in text:
+                n += 1
+        return n
+
+
+def run_real(sc, twin=False):
+    """Run the real processor on one molecule; project the result to integers."""
+    mol, index = build_molecule(sc, twin)
+    proc = make_processor(sc)
+    before = _snapshot(mol)
     exc = ''
-    try:
-        proc.run_molecule(mol)
-    except Exception as err:      # the statement promises a warning, not a failure
-        exc = repr(err)
-    finally:
-        logger.removeHandler(cap)
-        logger.setLevel(old_level)
-    bonds, others = [], []
-    for b in mol.interactions.get('bonds', []):
-        if b.meta.get('group') == 'Rubber band':
-            length, k = float(b.parameters[1]), float(b.parameters[2])
-            l5 = round(length * 1e5) if math.isfinite(length) else -1
-            if l5 >= 0 and abs(length * 1e5 - l5) > 1e-6:
-                l5 = -1                                   # not a 5-decimal number: TLC rejects the length
-            ki = round(k * MICRO) if math.isfinite(k) and abs(k) < 2000 else -1
-            bonds.append({'a': index[b.atoms[0]], 'b': index[b.atoms[1]], 'len': l5, 'k': ki})
-        else:
-            others.append((tuple(b.atoms), list(b.parameters), dict(b.meta)))
-    return {'exc': bool(exc), 'excmsg': exc, 'warn': sum(1 for r in cap.records if r.levelno >= logging.WARNING),
-            'bonds': bonds, 'others': others == before}
+    with _Listen() as ear:
+        try:
+            proc.run_molecule(mol)
+        except Exception as err:      # the statement promises a warning, not a failure
+            exc = repr(err)
+    bonds, others = _project(mol, index, before)
+    return {'exc': bool(exc), 'excmsg': exc, 'warn': ear.warnings(), 'bonds': bonds, 'others': others}
+
+
+def run_system_real(ssc):
+    """ONE processor object over a System of several molecules (run_system), `calls` times.  Returns per call and molecule the
+    record of what that call did to that molecule."""
+    from vermouth.system import System
+    system = System()
+    built = []
+    for k, sc in enumerate(ssc['mols']):
+        mol, index = build_molecule(sc, moltype='verif_mol_%d' % k)
+        built.append((mol, index))
+        system.add_molecule(mol)
+    proc = make_processor(ssc['mols'][0])
+    out = []
+    for call in range(ssc['calls']):
+        before = [_snapshot(m) for m, _ in built]
+        exc = ''
+        with _Listen() as ear:
+            try:
+                proc.run_system(system)
+            except Exception as err:       # noqa
+                exc = repr(err)
+        same_objects = len(system.molecules) == len(built) and all(a is b[0] for a, b in zip(system.molecules, built))
+        recs = []
+        for k, (mol, index) in enumerate(built):
+            bonds, others = _project(mol, index, before[k])
+            recs.append({'exc': bool(exc) or not same_objects, 'excmsg': exc, 'warn': ear.warnings('verif_mol_%d' % k), 'bonds': bonds,
+                         'others': others})
+        out.append(recs)
+    return out
 
 
 # ------------------------------------------------------------------------------------------------ model input
@@ -185,6 +287,10 @@ def raw_k(sc, i, j):
     return int(min(round(v), SAT))
 
 
+def _undefined(a):
+    return bool(a['nan'] or a.get('nopos'))
+
+
 def model_input(sc):
     n = len(sc['atoms'])
     decay = bool(sc['a'])
@@ -193,14 +299,15 @@ def model_input(sc):
         for i in range(n):
             row = []
             for j in range(n):
-                bad = i == j or sc['atoms'][i]['nan'] or sc['atoms'][j]['nan']
+                bad = i == j or _undefined(sc['atoms'][i]) or _undefined(sc['atoms'][j])
                 row.append(0 if bad else raw_k(sc, i, j))
             rawk.append(row)
     atoms = [{'chain': a['chain'], 'resid': a['resid'], 'resname': a['resname'], 'hasold': a['hasold'], 'old': a['old'],
-              'sel': a['sel'], 'nan': a['nan'], 'pos': list(a['pos'])} for a in sc['atoms']]
+              'sel': a['sel'], 'nan': _undefined(a), 'pos': list(a['pos']), 'name': a['name']} for a in sc['atoms']]
     return {'atoms': atoms, 'edges': [list(e) for e in sc['edges']],
             'dom': {'kind': sc['dom']['kind'], 'regions': [list(r) for r in sc['dom']['regions']]},
-            'rmd': sc['rmd'], 'up': sc['up'], 'base': sc['base'], 'minf': sc['minf'], 'decay': decay, 'rawk': rawk}
+            'rmd': 0, 'rmdspec': _spec_of(sc, 'rmdspec', sc['rmd']), 'btspec': _spec_of(sc, 'btspec', 6),
+            'up': sc['up'], 'lo': sc['lo'], 'base': sc['base'], 'minf': sc['minf'], 'decay': decay, 'rawk': rawk}
 
 
 def numerics_ok(sc):
@@ -210,7 +317,7 @@ def numerics_ok(sc):
     integer_power = float(sc['p']).is_integer()
     for i in range(len(atoms)):
         for j in range(i + 1, len(atoms)):
-            if atoms[i]['nan'] or atoms[j]['nan']:
+            if _undefined(atoms[i]) or _undefined(atoms[j]):
                 continue
             d2 = sum((x - y) ** 2 for x, y in zip(atoms[i]['pos'], atoms[j]['pos']))
             if d2 < 10000 or d2 >= 90000000 or d2 == sc['up'] ** 2:
@@ -221,6 +328,8 @@ def numerics_ok(sc):
             if not integer_power and d2 <= (sc['lo'] + 1) ** 2:
                 return False
             if decay and abs(min(raw_k(sc, i, j), sc['base']) - sc['minf']) < 10:
+                return False
+            if decay and abs(raw_k(sc, i, j) - sc['base']) < 10 and d2 != sc['lo'] ** 2:
                 return False
     return True
 
@@ -248,11 +357,62 @@ def _layout(rng, n, motion):
     return lay
 
 
+def _pick_specs(rng, sc):
+    """How separation and bond type reach the processor: as argument (the force field may hold ANOTHER value: the argument wins),
+    through the force field variable, or not at all (documented defaults 2 and 6)."""
+    r = rng.random()
+    if sc['rmd'] == 2 and r < 0.25:
+        sc['rmdspec'] = {'given': False, 'val': 0, 'ffhas': False, 'ffval': 0}
+    elif r < 0.55:
+        sc['rmdspec'] = {'given': False, 'val': 0, 'ffhas': True, 'ffval': sc['rmd']}
+    else:
+        other = rng.random() < 0.5
+        sc['rmdspec'] = {'given': True, 'val': sc['rmd'], 'ffhas': other, 'ffval': sc['rmd'] + 1 if other else 0}
+    bt = rng.choice([1, 6, 6])
+    r = rng.random()
+    if bt == 6 and r < 0.3:
+        sc['btspec'] = {'given': False, 'val': 0, 'ffhas': False, 'ffval': 0}
+    elif r < 0.6:
+        sc['btspec'] = {'given': False, 'val': 0, 'ffhas': True, 'ffval': bt}
+    else:
+        other = rng.random() < 0.5
+        sc['btspec'] = {'given': True, 'val': bt, 'ffhas': other, 'ffval': 7 - bt if other else 0}
+
+
+def gen_regions(rng, vals, mode):
+    """Region list over the residue numbers `vals` (sorted).  hinge: two regions share exactly one residue number; nested; overlap;
+    reversed: a region listed high:low; the list itself in either order."""
+    if len(vals) < 4:
+        mode = 'plain'
+    if mode == 'plain':
+        regions = []
+        for _ in range(rng.randint(1, 3)):
+            lo_, hi_ = sorted(rng.sample(vals, 2)) if len(vals) > 1 else (vals[0], vals[0])
+            regions.append([hi_, lo_] if rng.random() < 0.3 else [lo_, hi_])
+        return regions
+    a, b, c, d = sorted(rng.sample(range(len(vals)), 4))
+    if mode == 'hinge':
+        regions = [[vals[a], vals[b]], [vals[b], vals[d]]]
+    elif mode == 'nested':
+        regions = [[vals[a], vals[d]], [vals[b], vals[c]]]
+    elif mode == 'overlap':
+        regions = [[vals[a], vals[c]], [vals[b], vals[d]]]
+    else:
+        regions = [[vals[b], vals[a]], [vals[d], vals[c]]]
+    if rng.random() < 0.3:
+        regions[rng.randrange(2)].reverse()
+    if rng.random() < 0.5:
+        regions.reverse()
+    return regions
+
+
 def gen_scenario(rng, fam):
-    """One scenario of family `fam`; in the five criterion families every other criterion holds for every pair."""
-    single = fam in ('sel', 'dom', 'cut', 'force')       # single-bead residues: no pair shares a residue
+    """One scenario of family `fam`; in the sole-criterion families every other criterion holds for every pair."""
+    single = fam in ('sel', 'dom', 'cut', 'force', 'lowdecay')       # single-bead residues: no pair shares a residue
     nres_total = rng.randint(4, 10) if single else rng.randint(3, 7)
-    nchains = rng.choice([1, 2, 2, 3])
+    if fam == 'cyc':
+        nres_total = rng.randint(6, 9)
+    nchains = rng.choice([1, 2, 2, 3]) if fam != 'cyc' else rng.choice([1, 1, 2])
     nochain = rng.random() < 0.1 and fam not in ('dom',)         # no particle carries a chain identifier
     lonely = rng.randrange(3) if rng.random() < 0.15 else -1      # or only the particles of one chain lack it
     atoms, edges, res_members = [], [], []
@@ -262,6 +422,7 @@ def gen_scenario(rng, fam):
     bounds = [0] + cuts + [nres_total]
     resid = 0
     prev_bb = None
+    dup = fam == 'dupname' or (fam == 'mixed' and rng.random() < 0.25)
     for c in range(len(bounds) - 1):
         chain = '-' if (nochain or c == lonely) else 'ABC'[c]
         if c == 0:
@@ -276,6 +437,8 @@ def gen_scenario(rng, fam):
             step = _unit(rng)
             pos_bb = [pos_bb[k] + int(round(step[k] * rng.uniform(330, 420) * (2 if gap else 1))) for k in range(3)]
             nbeads = 1 if single else rng.choice([1, 2, 2, 3])
+            if dup:
+                nbeads = rng.choice([2, 3, 3])
             resname = rng.choice(RESNAMES)
             members = []
             for b in range(nbeads):
@@ -285,6 +448,8 @@ def gen_scenario(rng, fam):
                     u = _unit(rng)
                     pos = [pos_bb[k] + int(round(u[k] * rng.uniform(220, 340) * b)) for k in range(3)]
                 name = BEADNAMES[b] if not single else rng.choice(BEADNAMES + ['CA'])
+                if dup and b and rng.random() < 0.5:
+                    name = BEADNAMES[rng.randrange(b)]            # a name that the residue has already
                 atoms.append({'chain': chain, 'resid': resid, 'resname': resname, 'hasold': False, 'old': resid + old_shift,
                               'sel': True, 'nan': False, 'pos': pos, 'name': name})
                 members.append(len(atoms))
@@ -304,8 +469,11 @@ def gen_scenario(rng, fam):
                 atoms[idx - 1]['resid'], atoms[idx - 1]['old'] = donor['resid'], donor['old']
                 atoms[idx - 1]['resname'] = 'XYZ'
     nres = len(res_members)
-    for _ in range(rng.choice([0, 0, 1, 2])):             # cross-links (disulfide-like), also across chains
+    ncross = rng.choice([0, 0, 1, 2]) if fam != 'cyc' else rng.choice([1, 2, 2, 3])
+    for _ in range(ncross):             # cross-links (disulfide-like), also across chains; cyc: rings and branches
         r1, r2 = rng.sample(range(nres), 2)
+        if fam == 'cyc' and abs(r1 - r2) < 3:
+            r1, r2 = 0, nres - 1 - rng.randrange(2)
         e = [rng.choice(res_members[r1]), rng.choice(res_members[r2])]
         if e not in edges and e[::-1] not in edges:
             edges.append(e)
@@ -314,7 +482,7 @@ def gen_scenario(rng, fam):
     for a in atoms:
         a['hasold'] = hasold == 'all' or (hasold == 'some' and rng.random() < 0.5)
     sc = {'fam': fam, 'atoms': atoms, 'edges': edges, 'prebonds': rng.randint(0, min(3, len(edges))),
-          'via_ff': rng.random() < 0.4, 'explicit_domain': rng.random() < 0.5, 'explicit_selector': rng.random() < 0.5,
+          'explicit_domain': rng.random() < 0.5, 'explicit_selector': rng.random() < 0.5,
           'a': 0.0, 'p': rng.choice([0, 0, 1, 2]), 'lo': rng.choice([0, 300, 500]),
           'base': rng.choice([500, 700, 1000]) * MICRO, 'minf': 0}
     span = 1 + int(max(math.sqrt(sum((x - y) ** 2 for x, y in zip(p['pos'], q['pos']))) for p in atoms for q in atoms))
@@ -322,6 +490,8 @@ def gen_scenario(rng, fam):
     # --- selection
     def pick_selection():
         mode = rng.choice(['backbone', 'names', 'alternate', 'random', 'random'])
+        if fam == 'dupname':
+            mode = 'names'
         if single and mode in ('backbone', 'names'):
             names = ['BB'] if mode == 'backbone' else rng.sample(BEADNAMES + ['CA'], 2)
             for a in atoms:
@@ -350,9 +520,7 @@ def gen_scenario(rng, fam):
         regions = []
         if kind == 'regions':
             vals = sorted({(a['old'] if a['hasold'] else a['resid']) for a in atoms})
-            for _ in range(rng.randint(1, 3)):
-                lo_, hi_ = sorted(rng.sample(vals, 2)) if len(vals) > 1 else (vals[0], vals[0])
-                regions.append([hi_, lo_] if rng.random() < 0.3 else [lo_, hi_])
+            regions = gen_regions(rng, vals, rng.choice(['plain', 'plain', 'hinge', 'nested', 'overlap', 'reversed']))
         return {'kind': kind, 'regions': regions}
 
     def pick_decay():
@@ -360,6 +528,12 @@ def gen_scenario(rng, fam):
         sc['p'] = rng.choice([1, 2, 2, 3, 6, 0.5, 1.5])
         if not float(sc['p']).is_integer():
             sc['lo'] = 0
+
+    def threshold_between_constants():
+        ks = sorted({min(raw_k(sc, i, j), sc['base']) for i in range(n) for j in range(i + 1, n)})
+        if len(ks) >= 2:
+            t = rng.randrange(len(ks) - 1)
+            sc['minf'] = (ks[t] + ks[t + 1]) // 2
 
     sc['selector'] = all_selected()
     sc['dom'] = {'kind': 'molecule', 'regions': []}
@@ -371,6 +545,8 @@ def gen_scenario(rng, fam):
         sc['dom'] = pick_domain()
     elif fam == 'sep':
         sc['rmd'] = rng.choice([0, 1, 1, 2, 2, 3])
+    elif fam == 'cyc':
+        sc['rmd'] = rng.choice([1, 2, 2, 3, 4])
     elif fam == 'cut':
         sc['up'] = rng.randint(400, 1000)
     elif fam == 'force':
@@ -378,12 +554,14 @@ def gen_scenario(rng, fam):
             sc['minf'] = sc['base'] + rng.choice([0, 1, 50 * MICRO])       # nothing is stiff enough
         else:
             pick_decay()
-            ks = sorted({min(raw_k(sc, i, j), sc['base']) for i in range(n) for j in range(i + 1, n)})
-            if len(ks) >= 2:
-                t = rng.randrange(len(ks) - 1)
-                sc['minf'] = (ks[t] + ks[t + 1]) // 2
-    else:                                                                   # mixed, nan
-        sc['selector'] = pick_selection() if rng.random() < 0.8 else all_selected()
+            threshold_between_constants()
+    elif fam == 'lowdecay':          # many distances below the lower bound; even power decays there, odd power is capped
+        sc['a'] = rng.choice([0.5, 1.0, 2.0, 4.0])
+        sc['p'] = rng.choice([1, 2, 3, 4, 2, 3])
+        sc['lo'] = rng.randint(600, 1100)
+        threshold_between_constants()
+    else:                                                                   # mixed, nan, dupname
+        sc['selector'] = pick_selection() if (rng.random() < 0.8 or fam == 'dupname') else all_selected()
         sc['dom'] = pick_domain() if rng.random() < 0.6 else sc['dom']
         sc['rmd'] = rng.choice([0, 1, 2, 2, 3])
         sc['up'] = rng.choice([rng.randint(450, 1200), span + 10])
@@ -401,6 +579,7 @@ def gen_scenario(rng, fam):
         for v in victims:
             atoms[v]['nan'] = True
             atoms[v]['nanmask'] = rng.choice([[1, 1, 1], [0, 1, 0], [1, 0, 0]])
+    _pick_specs(rng, sc)
     sc['layout'] = _layout(rng, n, motion=False)
     sc['twin'] = _layout(rng, n, motion=True)
     return sc
@@ -414,25 +593,167 @@ def make_scenario(rng, fam):
     raise tlc.MachineryError('generator cannot find a numerically unambiguous scenario for family ' + fam)
 
 
+SHARED = ('lo', 'up', 'a', 'p', 'base', 'minf', 'selector', 'dom', 'explicit_domain', 'explicit_selector')
+
+
+def make_system(rng):
+    """A System for ONE processor object: the first molecule fixes the processor; the others are fitted to it (selection recomputed
+    from the shared selector) and carry their own force field variables.  Roles: plain, nan (a selected atom has NaN coordinates),
+    nopos (unselected atoms without position), empty (nothing selected)."""
+    for _ in range(100):
+        first = make_scenario(rng, 'mixed')
+        if first['selector']['kind'] in ('names', 'backbone') and any(not a['sel'] for a in first['atoms']):
+            break
+    given_rmd = rng.random() < 0.3
+    given_bt = rng.random() < 0.3
+    names = first['selector']['names']
+    roles = ['plain'] + rng.sample(['plain', 'nan', 'nopos', 'empty', 'plain'], rng.randint(1, 3))
+    rng.shuffle(roles)
+    mols = []
+    for role in roles:
+        for _ in range(200):
+            sc = gen_scenario(rng, 'mixed') if mols else first
+            if mols:
+                for k in SHARED:
+                    sc[k] = first[k]
+                for a in sc['atoms']:
+                    a['sel'] = a['name'] in names
+                    a['nan'] = False
+            if role == 'empty':
+                for a in sc['atoms']:
+                    if a['sel']:
+                        a['name'] = 'XX'
+                        a['sel'] = False
+            sel = [a for a in sc['atoms'] if a['sel']]
+            unsel = [a for a in sc['atoms'] if not a['sel']]
+            if role == 'nan':
+                if not sel:
+                    continue
+                for a in rng.sample(sel, min(len(sel), rng.randint(1, 2))):
+                    a['nan'] = True
+                    a['nanmask'] = rng.choice([[1, 1, 1], [0, 1, 0], [1, 0, 0]])
+            if role == 'nopos':
+                if not unsel or not sel:
+                    continue
+                for a in rng.sample(unsel, rng.randint(1, len(unsel))):
+                    a['nopos'] = rng.choice(['absent', 'none'])
+            if role == 'plain' and len(sel) < 2:
+                continue
+            # separation and bond type: the processor's argument is shared; otherwise every molecule's own force field decides
+            sc['rmd'] = first['rmd'] if given_rmd else rng.choice([0, 1, 2, 2, 3])
+            if given_rmd:
+                other = rng.random() < 0.5
+                sc['rmdspec'] = {'given': True, 'val': sc['rmd'], 'ffhas': other, 'ffval': sc['rmd'] + 1 if other else 0}
+            elif sc['rmd'] == 2 and rng.random() < 0.5:
+                sc['rmdspec'] = {'given': False, 'val': 0, 'ffhas': False, 'ffval': 0}
+            else:
+                sc['rmdspec'] = {'given': False, 'val': 0, 'ffhas': True, 'ffval': sc['rmd']}
+            if given_bt:
+                sc['btspec'] = {'given': True, 'val': first['btspec']['val'] if first['btspec']['given'] else 1, 'ffhas': True, 'ffval': 5}
+            else:
+                bt = rng.choice([1, 6, 2])
+                sc['btspec'] = {'given': False, 'val': 0, 'ffhas': bt != 6 or rng.random() < 0.5, 'ffval': bt}
+            sc['fam'] = 'hist'
+            sc['role'] = role
+            if numerics_ok(sc):
+                mols.append(sc)
+                break
+        else:
+            raise tlc.MachineryError('generator cannot fit a molecule of role %s to the shared processor' % role)
+    if given_bt:
+        for sc in mols:
+            sc['btspec']['val'] = mols[0]['btspec']['val']
+    return {'fam': 'hist', 'mols': mols, 'calls': rng.choice([1, 2, 2])}
+
+
 def event_of(sc, with_twin=True):
     rec = run_real(sc)
     ev = {'fam': sc['fam'], 'm': model_input(sc), 'rec': {k: rec[k] for k in ('exc', 'warn', 'bonds', 'others')},
           'twin': {'has': False, 'exc': False, 'bonds': []}}
-    if with_twin and not any(a['nan'] for a in sc['atoms']):
+    if with_twin and not any(_undefined(a) for a in sc['atoms']):
         t = run_real(sc, twin=True)
         ev['twin'] = {'has': True, 'exc': t['exc'], 'bonds': t['bonds']}
     return ev, rec
 
 
+def system_events(ssc):
+    """[(scenario for the replay, event)] - one per molecule and call."""
+    out = []
+    calls = run_system_real(ssc)
+    for c, recs in enumerate(calls):
+        for k, (sc, rec) in enumerate(zip(ssc['mols'], recs)):
+            ev = {'fam': 'hist' if c == 0 else 'hist-twice', 'm': model_input(sc), 'rec': {x: rec[x] for x in ('exc', 'warn', 'bonds', 'others')},
+                  'twin': {'has': False, 'exc': False, 'bonds': []}, 'role': sc['role']}
+            out.append(({'system': ssc, 'call': c, 'molecule': k, 'excmsg': rec['excmsg']}, ev))
+    return out
+
+
+# ------------------------------------------------------------------------------------------------------ judge
+def _judge(shard):
+    """TLC on a list of (scenario, event) -> (distinct, generated, {index from 1: verdict})."""
+    work = tlc.scratch('c15_')
+    try:
+        clean = [{k: v for k, v in ev.items() if k != 'role'} for _, ev in shard]
+        tf = tlc.write_json(work, 'trace.json', clean)
+        res = tlc.run('Trace_ElasticNet', 'SPECIFICATION Spec\n', dump=True, env={'TRACE_FILE': tf}, workdir=work, workers=2,
+                      timeout=1800)
+        if res.violated:
+            raise tlc.MachineryError('Trace_ElasticNet violated ' + str(res.violated))
+        verdicts = {st['tid']: st['verdict'] for st in res.states() if st['verdict']['v'] != 'pending'}
+        if len(verdicts) != len(shard):
+            raise tlc.MachineryError('trace verdicts missing: %d of %d: %s' % (len(verdicts), len(shard), res.stdout[-600:]))
+        return res.distinct, res.generated, verdicts
+    finally:
+        import shutil
+        shutil.rmtree(work, ignore_errors=True)
+
+
+def _hash(case):
+    import hashlib
+    import json
+    return hashlib.sha1(json.dumps(common.jsonable(case), sort_keys=True).encode()).hexdigest()[:16]
+
+
+def summarise(shard):
+    """Judge a share and reduce it to what the parent needs: counts, class histogram per family, hashes of the non-trivial inputs,
+    the rejected records (with their scenario, for the replay file) and one sample."""
+    if not shard:
+        return {'states': 0, 'transitions': 0, 'n': 0, 'hist': {}, 'nontrivial': [], 'bad': [], 'sample': None, 'roles': {}}
+    dist, gen, verdicts = _judge(shard)
+    out = {'states': dist, 'transitions': gen, 'n': len(shard), 'hist': {}, 'nontrivial': [], 'bad': [], 'sample': None, 'roles': {}}
+    for i, (sc, e) in enumerate(shard, 1):
+        v = verdicts[i]
+        h = out['hist'].setdefault(e['fam'], {'events': 0})
+        h['events'] += 1
+        for c, k in v['cls'].items():
+            h[c] = h.get(c, 0) + k
+        if e.get('role'):
+            r = out['roles'].setdefault(e['fam'] + ':' + e['role'], {'events': 0, 'bonds': 0, 'warned': 0})
+            r['events'] += 1
+            r['bonds'] += len(e['rec']['bonds'])
+            r['warned'] += int(e['rec']['warn'] > 0)
+        if v['v'] != 'ok':
+            out['bad'].append(({'kind': 'trace', 'scenario': sc, 'recorded': e['rec'], 'twin': e['twin']}, v['v']))
+        if sum(1 for c in ['bond'] + CRITERIA if v['cls'].get(c, 0) > 0) >= 2:
+            out['nontrivial'].append(_hash(e['m']))
+        if out['sample'] is None and e['fam'] in ('mixed', 'hist-twice') and len(e['m']['atoms']) <= 8 and e['rec']['bonds']:
+            out['sample'] = {'kind': 'recorded run judged by TLC', 'event': e}
+    return out
+
+
 def _trace_chunk(args):
+    """Pool worker: generate, run AND judge its share of the random families; return the summary only."""
     jobs, seed = args
     rng = random.Random(seed)
-    out = []
+    shard = []
     for fam in jobs:
-        sc = make_scenario(rng, fam)
-        ev, _ = event_of(sc)
-        out.append((sc, ev))
-    return out
+        if fam == 'hist':
+            shard += system_events(make_system(rng))
+        else:
+            sc = make_scenario(rng, fam)
+            ev, _ = event_of(sc)
+            shard.append((sc, ev))
+    return summarise(shard)
 
 
 # ------------------------------------------------------------------------------------------------- TAB replay
@@ -458,12 +779,18 @@ def scenario_of_state(m, rng):
 
 
 def _replay_chunk(args):
-    states, seed = args
+    """Pool worker: replay its share of the TAB rows into the real processor, have TLC judge a tenth of them as recorded runs too."""
+    states, seed = args[0], args[1]
+    judge = args[2] if len(args) > 2 else True
     rng = random.Random(seed)
     bad, judged, n = [], [], 0
-    nontrivial, sample, inhabited = [], [], 0
-    if states and isinstance(states[0], str):           # raw dump bodies: parse here, in parallel
-        states = [st for st in map(tlaval.parse_state_body, states) if (0, 0) not in st['out']]
+    nontrivial, sample, inhabited, hinge = [], [], 0, 0
+    if isinstance(states, tuple):                       # (dump file, first byte, end byte): read and parse here, in parallel
+        path, start, end = states
+        with open(path, 'rb') as fh:
+            fh.seek(start)
+            text = fh.read(end - start).decode()
+        states = [st for st in map(tlaval.parse_state_body, tlaval._STATE_HDR.split(text)[2::2]) if (0, 0) not in st['out']]
     for st in states:
         sc = scenario_of_state(st['m'], rng)
         rec = run_real(sc)
@@ -476,139 +803,299 @@ def _replay_chunk(args):
                         'constants': sorted(ks)})
         nsel = sum(1 for a in st['m']['atoms'] if a['sel'])
         if 1 <= len(exp) < nsel * (nsel - 1) // 2:
-            nontrivial.append(st['m'])
+            nontrivial.append(_hash(st['m']))
             if len(sample) < 1:
                 sample.append({'kind': 'TAB row replayed', 'input': st['m'], 'expected_bonds': exp, 'real_bonds': got})
         if exp:
             inhabited += 1
+            regs = st['m']['dom']['regions']
+            if st['m']['dom']['kind'] == 'regions' and len(regs) == 2 and set(regs[0]) & set(regs[1]):
+                hinge += 1
         if rng.random() < 0.1:
             ev = {'fam': 'tab', 'm': model_input(sc), 'rec': {k: rec[k] for k in ('exc', 'warn', 'bonds', 'others')},
                   'twin': {'has': False, 'exc': False, 'bonds': []}}
             judged.append((sc, ev))
-    return n, bad, judged, nontrivial, sample, inhabited
+    summary = summarise(judged) if judge else None
+    return n, bad, summary, nontrivial, sample, inhabited, hinge
 
 
-# ------------------------------------------------------------------------------------------------------ judge
-def _judge(shard):
-    work = tlc.scratch('c15_')
-    tf = tlc.write_json(work, 'trace.json', [ev for _, ev in shard])
-    res = tlc.run('Trace_ElasticNet', 'SPECIFICATION Spec\n', dump=True, env={'TRACE_FILE': tf}, workdir=work, workers=2,
-                  timeout=1800)
-    if res.violated:
-        raise tlc.MachineryError('Trace_ElasticNet violated ' + str(res.violated))
-    verdicts = {st['tid']: st['verdict'] for st in res.states() if st['verdict']['v'] != 'pending'}
-    return res.distinct, res.generated, verdicts
+# -------------------------------------------------------------------------------------------------- command line
+def cli_start(tier, seed):
+    """Start the runs of the real command line in a process of their own (harness/c15_real.py main)."""
+    import subprocess
+    import sys
+    import tempfile
+    work = tempfile.mkdtemp(prefix='c15cliout_')
+    log = open(os.path.join(work, 'log.txt'), 'w')
+    env = dict(os.environ, PYTHONPATH=os.pathsep.join([common.VERIF, common.REPO]), VERIF_REPO=common.REPO)
+    proc = subprocess.Popen([sys.executable, '-W', 'ignore', '-m', 'harness.c15_real', tier, str(seed), os.path.join(work, 'outs.pkl')],
+                            cwd=common.VERIF, env=env, stdout=log, stderr=subprocess.STDOUT)
+    return {'proc': proc, 'work': work, 'log': log}
 
 
-def judge_batch(batch, ev, vd):
-    """batch: list of (scenario, event). Returns per-family class histogram."""
-    shards = common.chunks(batch, 4 if len(batch) < 3000 else tlc.NCPU // 2)
-    with mp.Pool(len(shards)) as pool:
-        res = pool.map(_judge, shards)
-    hist = {}
-    for shard, (dist, gen, verdicts) in zip(shards, res):
-        ev.states += dist
-        ev.transitions += gen
-        if len(verdicts) != len(shard):
-            raise tlc.MachineryError('trace verdicts missing: %d of %d' % (len(verdicts), len(shard)))
-        for i, (sc, e) in enumerate(shard, 1):
-            v = verdicts[i]
+CLI_NEED = ('bond', 'sel', 'dom', 'sep', 'cut', 'force', 'shortcut', 'acrossgap', 'interchain', 'capped', 'decayed', 'hinge', 'nanmols')
+
+
+def cli_collect(handle, tier, ev, vd):
+    """bin/martinize2 -elastic ...: see harness/c15_real.py and spec/ElasticFiles.tla."""
+    import pickle
+    import shutil
+    try:
+        try:
+            rc = handle['proc'].wait(timeout=1500 if tier == 'quick' else 3300)
+        except Exception as exc:       # noqa
+            handle['proc'].kill()
+            raise tlc.MachineryError('command-line runs did not finish: %r' % exc)
+        handle['log'].close()
+        path = os.path.join(handle['work'], 'outs.pkl')
+        if rc != 0 or not os.path.exists(path):
+            with open(os.path.join(handle['work'], 'log.txt')) as fh:
+                raise tlc.MachineryError('command-line runs failed (rc %s): %s' % (rc, fh.read()[-1500:]))
+        with open(path, 'rb') as fh:
+            shares = pickle.load(fh)
+    finally:
+        shutil.rmtree(handle['work'], ignore_errors=True)
+    hist, tot = {}, {c: 0 for c in CLI_NEED}
+    seen = {'runs': 0, 'without_request_and_without_lines': 0, 'forced_by_force_field': 0, 'thr_inside': 0, 'thr_outside': 0,
+            'molecule_types_used_more_than_once': 0, 'systems_of_several_molecules': 0, 'free_pairs': 0, 'function_types': set(),
+            'default_separation_runs': 0}
+    rejected = 0
+    for share in shares:
+        for p in share['problems']:
+            raise tlc.MachineryError('command-line run unusable (%s %s): %s' % tuple(p))
+        ev.states += share['states']
+        ev.transitions += share['transitions']
+        for row in share['rows']:
+            seen['runs'] += 1
             ev.traces += 1
             ev.evaluations += 1
-            h = hist.setdefault(e['fam'], {'events': 0})
-            h['events'] += 1
-            for c, k in v['cls'].items():
-                h[c] = h.get(c, 0) + k
-            if v['v'] != 'ok':
-                vd.violation('trace-rejected', {'kind': 'trace', 'scenario': sc, 'recorded': e['rec'], 'twin': e['twin']},
-                             v['v'])
-            if sum(1 for c in ['bond'] + CRITERIA if v['cls'].get(c, 0) > 0) >= 2:
-                ev.nontrivial_case(e['m'])
+            h = hist.setdefault(row['fam'], {'runs': 0, 'lines': 0})
+            h['runs'] += 1
+            h['lines'] += row['nbonds']
+            if row['requested']:
+                for c, k in row['cls'].items():
+                    h[c] = h.get(c, 0) + k
+                    if c in tot:
+                        tot[c] += k
+                seen['free_pairs'] += row['cls'].get('free', 0)
+                if sum(1 for c in ('bond', 'sel', 'dom', 'sep', 'cut', 'force') if row['cls'].get(c, 0) > 0) >= 2:
+                    ev.nontrivial_case({'layout': row['sc']['layout'], 'request': row['opts'], 'nan': row['sc'].get('nan')})
+            if row['v'] != 'ok':
+                rejected += 1
+                vd.violation('cli-rejected', {'kind': 'cli', 'scenario': row['sc'], 'options': row['info'].get('argv'), 'at': row['at'],
+                                              'event': row.get('event')},
+                             '%s at particles %s: martinize2 %s (layout %s)' % (row['v'], row['at'], row['info'].get('argv'), row['sc']['layout']))
+                continue
+            if not row['requested'] and row['nbonds'] == 0:
+                seen['without_request_and_without_lines'] += 1
+            if row['requested'] and not row['opts']['flag'] and row['nbonds'] > 0:
+                seen['forced_by_force_field'] += 1
+            if row.get('aim'):
+                seen['thr_inside' if row['aim']['inside'] else 'thr_outside'] += 1
+            if any(m[1] > 1 for m in row['info']['moltypes']):
+                seen['molecule_types_used_more_than_once'] += 1
+            if row['cls'].get('mols', 0) > 1:
+                seen['systems_of_several_molecules'] += 1
+            seen['function_types'] |= set(row['info']['ftypes'])
+            if row['sc']['opts']['ermd'] is None and row['requested']:
+                seen['default_separation_runs'] += 1
+            if row.get('sample'):
+                ev.sample({'kind': 'files written by bin/martinize2 judged by TLC (ElasticFiles)', 'layout': row['sc']['layout'],
+                           'command_line': row['info']['argv'], **row['sample']}, limit=4)
+    seen['function_types'] = sorted(seen['function_types'])
+    ev.tlc_runs.append({'run': 'TRACE ElasticFiles (real command line)', 'events': seen['runs']})
+    ev.extra['command_line_per_family'] = hist
+    ev.extra['command_line_seen'] = dict(seen, note=(
+        'free_pairs: pairs within the 0.002 A band of the cut-off or whose constant interval straddles the minimum force (either way '
+        'accepted). default_separation_runs: runs without -ermd, judged with the fallback ApplyRubberBand documents (force field '
+        'variable elastic_network_res_min_dist, else 2); the shipped force fields define a variable called res_min_dist instead, '
+        'which nothing reads - observation, outside the statement.'))
+    if not rejected:
+        empty = [c for c in CLI_NEED if not tot[c]]
+        empty += [k for k in ('without_request_and_without_lines', 'forced_by_force_field', 'thr_inside', 'thr_outside',
+                              'systems_of_several_molecules') if not seen[k]]
+        if tier != 'quick' and not seen['molecule_types_used_more_than_once']:
+            empty.append('molecule_types_used_more_than_once')
+        if empty:
+            raise tlc.MachineryError('vacuous command-line family: nothing in class(es) %s (%s %s)' % (empty, tot, seen))
     return hist
 
 
 # -------------------------------------------------------------------------------------------------------- run
+def _absorb(summary, ev, vd, hist, roles):
+    ev.states += summary['states']
+    ev.transitions += summary['transitions']
+    ev.traces += summary['n']
+    ev.evaluations += summary['n']
+    for fam, h in summary['hist'].items():
+        t = hist.setdefault(fam, {})
+        for c, k in h.items():
+            t[c] = t.get(c, 0) + k
+    for key, r in summary['roles'].items():
+        t = roles.setdefault(key, {})
+        for c, k in r.items():
+            t[c] = t.get(c, 0) + k
+    for h in summary['nontrivial']:
+        ev.nontrivial.add(h)
+    for scen, why in summary['bad']:
+        vd.violation('trace-rejected', scen, why)
+    if summary['sample'] is not None:
+        ev.sample(summary['sample'], limit=4)
+
+
 def run(tier, seed, ev, vd):
     quick = tier == 'quick'
-    ev.rule = ('TAB: every combination of selection x residue partition x chain split x domain kind x separation x cut-off x '
-               'minimum force x cross-link on a line of beads, replayed into the real processor. TRACE: random molecules per '
-               'generator family. Non-trivial = input on which at least two of the classes {bonded, excluded only by '
-               'selection, only by domain, only by separation, only by cut-off, only by force} are inhabited (classes '
-               'computed by TLC; for TAB rows: some but not all selected pairs bonded); distinct by model input.')
+    ev.rule = ('TAB: every combination of selection x residue partition x chain split x domain kind (region lists: disjoint, sharing a '
+               'hinge residue, nested / overlapping, reversed) x separation x cut-off x minimum force x cross-link on a line of beads, '
+               'replayed into the real processor. TRACE: random molecules per generator family; systems of several molecules under ONE '
+               'processor object, run once or twice; runs of the real command line judged from the written files. Non-trivial = input '
+               'on which at least two of the classes {bonded, excluded only by selection, only by domain, only by separation, only by '
+               'cut-off, only by force} are inhabited (classes computed by TLC; for TAB rows: some but not all selected pairs bonded); '
+               'distinct by model input (command line: by structure and request).')
     ev.assumptions = [
         'TLC 1.8 evaluates the TLA+ operators correctly',
         'the exponential of the decay is evaluated with math.exp in the harness and handed to TLC per pair (DESIGN.md limit)',
         'coordinates are integer pm; lengths must be 5-decimal numbers (1e-6 in units of 1e-5 nm) and are then compared '
         'exactly; force constants compared in 1e-6 kJ/mol/nm^2 with +-1 unit',
         'not generated: distance numerically on the cut-off (except exactly representable TAB rows), length within 1e-9 nm of a '
-        'rounding boundary, decayed constant within 1e-5 of the minimum force, non-integer decay power below the lower bound, '
-        'negative minimum force, decay factor != 0 with power 0, selected atoms without coordinates, coincident atoms',
+        'rounding boundary, decayed constant within 1e-5 of the minimum force or of the cap, non-integer decay power below the lower '
+        'bound, negative minimum force, decay factor != 0 with power 0, SELECTED atoms without a position attribute (documented '
+        'ValueError), coincident atoms',
+        'a second application of the processor is judged by what it ADDS (the statement speaks of one application): it must add the '
+        'same network again and leave every earlier interaction alone; that every pair then carries two bonds is recorded as an '
+        'observation, not a violation',
+        'the bond function type (argument, else force field variable elastic_network_bond_type, else 6) is beyond the statement and '
+        'named separately in the verdicts',
+        'command line (files): positions are known to 0.001 A, so pairs within 0.002 A of the cut-off, and pairs whose constant '
+        'interval (decay evaluated over the compatible distances) straddles the minimum force, may go either way; lengths are '
+        'compared within the same band; residues of the written beads are identified by geometry against the input the harness wrote; '
+        'without -ermd the separation is the fallback the processor documents (variable elastic_network_res_min_dist, else 2)',
     ]
-    consts = TAB_CONSTS[tier]
-    res = tlc.run('ElasticNet', TAB_CFG, consts=consts, dump=True, timeout=1700)
-    if res.violated:
-        raise tlc.MachineryError('ElasticNet model violates %s' % res.violated)
-    ev.add_tlc('TAB ElasticNet %s' % {k: consts[k] for k in ('NB', 'Ups', 'Rmds')}, res)
-    ev.exhaustive = True
-    with open(res.dump_path) as fh:
-        bodies = tlaval._STATE_HDR.split(fh.read())[2::2]
-    if len(bodies) != res.distinct:
-        raise tlc.MachineryError('dump has %d states, TLC reports %d' % (len(bodies), res.distinct))
-    parts = common.chunks(bodies, tlc.NCPU * 4)
-    with mp.Pool(tlc.NCPU) as pool:
-        outs = pool.map(_replay_chunk, [(p, seed * 1009 + i) for i, p in enumerate(parts)])
-    batch = []
-    nrows = inhabited = 0
-    for n, bad, judged, nontrivial, sample, inh in outs:
-        nrows += n
-        inhabited += inh
-        ev.traces += n
-        ev.evaluations += n
-        batch += judged
-        for b in bad:
-            vd.violation('replay-mismatch', b, 'real bonds %s, TLC ExpectedDecl %s %s' % (b['got'], b['expected'], b['exc']))
-        for m in nontrivial:
-            ev.nontrivial_case(m)
-        for smp in sample:
-            ev.sample(smp, limit=1)
-    if nrows * 2 != res.distinct:
-        raise tlc.MachineryError('TAB dump has %d evaluated rows for %d states' % (nrows, res.distinct))
-    if not inhabited:
-        raise tlc.MachineryError('vacuous TAB model: no input with a bond')
+    cli = cli_start(tier, seed)
+    try:
+        consts = TAB_CONSTS[tier]
+        res = tlc.run('ElasticNet', TAB_CFG, consts=consts, dump=True, timeout=1700)
+        if res.violated:
+            raise tlc.MachineryError('ElasticNet model violates %s' % res.violated)
+        ev.add_tlc('TAB ElasticNet %s' % {k: consts[k] for k in ('NB', 'Ups', 'Rmds', 'TabRegions')}, res)
+        ev.exhaustive = True
+        offsets, pos = [], 0
+        with open(res.dump_path, 'rb') as fh:               # the rows stay in the file: workers read their own byte range
+            for line in fh:
+                if line.startswith(b'State '):
+                    offsets.append(pos)
+                pos += len(line)
+        if len(offsets) != res.distinct:
+            raise tlc.MachineryError('dump has %d states, TLC reports %d' % (len(offsets), res.distinct))
+        offsets.append(pos)
+        per = 110 if quick else 2000
+        jobs = [f for f in FAMILIES for _ in range(per)] + ['hist'] * (per // 2)
+        random.Random(seed).shuffle(jobs)
+        cutpoints = common.chunks(range(res.distinct), tlc.NCPU * (2 if quick else 8))
+        tasks = [('replay', ((res.dump_path, offsets[c[0]], offsets[c[-1] + 1]), seed * 1009 + i)) for i, c in enumerate(cutpoints)]
+        tasks += [('trace', (c, seed * 7919 + i)) for i, c in enumerate(common.chunks(jobs, tlc.NCPU * (1 if quick else 8)))]
+        hist, roles = {}, {}
+        nrows = inhabited = hinge = 0
+        with mp.Pool(tlc.NCPU) as pool:
+            for kind, out in pool.imap_unordered(_pool_task, tasks, chunksize=1):
+                if kind == 'replay':
+                    n, bad, summary, nontrivial, sample, inh, hng = out
+                    nrows += n
+                    inhabited += inh
+                    hinge += hng
+                    ev.traces += n
+                    ev.evaluations += n
+                    for b in bad:
+                        vd.violation('replay-mismatch', b, 'real bonds %s, TLC ExpectedDecl %s %s' % (b['got'], b['expected'], b['exc']))
+                    for h in nontrivial:
+                        ev.nontrivial.add(h)
+                    for smp in sample:
+                        ev.sample(smp, limit=1)
+                    _absorb(summary, ev, vd, hist, roles)
+                else:
+                    _absorb(out, ev, vd, hist, roles)
+        if nrows * 2 != res.distinct:
+            raise tlc.MachineryError('TAB dump has %d evaluated rows for %d states' % (nrows, res.distinct))
+        if not inhabited or not hinge:
+            raise tlc.MachineryError('vacuous TAB model: %d inputs with a bond, %d of them with regions sharing a residue' % (inhabited, hinge))
+        ev.tlc_runs.append({'run': 'TRACE Trace_ElasticNet', 'events': sum(h.get('events', 0) for h in hist.values())})
+        ev.extra['pairs_per_family_and_class'] = hist
+        ev.extra['system_families_by_role'] = roles
+        ev.extra['class_legend'] = ('per generator family: number of particle pairs that are bonded / excluded by exactly the named '
+                                    'criterion / by several (multi), as classified by TLC from ElasticNet!Failing; shortcut = excluded by '
+                                    'the separation alone although the residue numbers differ by more than it (ring / branch); bynumber = '
+                                    'bonded although the numbers are within it; hinge = bonded with a bead lying in several regions; lowcap '
+                                    '/ lowdec = distance below the lower bound with a decay: at the cap / below the base; dupname = bonded '
+                                    'bead whose name occurs twice in its residue')
+        if not vd.violations:
+            for fam, crit in SOLE.items():       # vacuity: the dedicated family must exercise its criterion as sole excluder
+                h = hist.get(fam, {})
+                others = [c for c in CRITERIA if c != crit and h.get(c, 0)]
+                if h.get(crit, 0) == 0 or h.get('bond', 0) == 0:
+                    raise tlc.MachineryError('vacuous family %s: %s' % (fam, h))
+                if others or h.get('multi', 0):
+                    raise tlc.MachineryError('family %s is not a sole-criterion family: %s' % (fam, h))
+            need = {'nan events': hist.get('nan', {}).get('events', 0), 'dom hinge': hist.get('dom', {}).get('hinge', 0),
+                    'cyc shortcut': hist.get('cyc', {}).get('shortcut', 0), 'sep bynumber': hist.get('sep', {}).get('bynumber', 0)
+                    + hist.get('cyc', {}).get('bynumber', 0),
+                    'lowdecay lowcap': hist.get('lowdecay', {}).get('lowcap', 0), 'lowdecay lowdec': hist.get('lowdecay', {}).get('lowdec', 0),
+                    'dupname dupname': hist.get('dupname', {}).get('dupname', 0),
+                    'hist plain bonds': roles.get('hist:plain', {}).get('bonds', 0), 'hist-twice plain bonds': roles.get('hist-twice:plain', {}).get('bonds', 0),
+                    'hist nan warned': roles.get('hist:nan', {}).get('warned', 0), 'hist-twice nan warned': roles.get('hist-twice:nan', {}).get('warned', 0),
+                    'hist nopos bonds': roles.get('hist:nopos', {}).get('bonds', 0), 'hist empty': roles.get('hist:empty', {}).get('events', 0)}
+            empty = [k for k, v in need.items() if not v]
+            if empty:
+                raise tlc.MachineryError('vacuous families: %s (%s)' % (empty, need))
+    except BaseException:
+        cli['proc'].kill()
+        raise
+    cli_collect(cli, tier, ev, vd)
 
-    per = 150 if quick else 2500
-    jobs = [f for f in FAMILIES for _ in range(per)]
-    random.Random(seed).shuffle(jobs)
-    with mp.Pool(tlc.NCPU) as pool:
-        parts = pool.map(_trace_chunk, [(c, seed * 7919 + i) for i, c in enumerate(common.chunks(jobs, tlc.NCPU * 2))])
-    batch += [x for p in parts for x in p]
-    hist = judge_batch(batch, ev, vd)
-    ev.tlc_runs.append({'run': 'TRACE Trace_ElasticNet', 'events': len(batch)})
-    ev.extra['pairs_per_family_and_class'] = hist
-    ev.extra['class_legend'] = ('per generator family: number of particle pairs that are bonded / excluded by exactly the '
-                                'named criterion / by several (multi), as classified by TLC from ElasticNet!Failing')
-    for fam in CRITERIA:                 # vacuity: the dedicated family must exercise its criterion as sole excluder
-        h = hist.get(fam, {})
-        others = [c for c in CRITERIA if c != fam and h.get(c, 0)]
-        if h.get(fam, 0) == 0 or h.get('bond', 0) == 0:
-            raise tlc.MachineryError('vacuous family %s: %s' % (fam, h))
-        if others or h.get('multi', 0):
-            raise tlc.MachineryError('family %s is not a sole-criterion family: %s' % (fam, h))
-    if not hist.get('nan', {}).get('events'):
-        raise tlc.MachineryError('no NaN scenario generated')
-    sc, e = next(x for x in batch if x[0]['fam'] == 'mixed')
-    ev.sample({'kind': 'recorded run judged by TLC', 'event': e})
+
+def _pool_task(task):
+    kind, args = task
+    return kind, (_replay_chunk(args) if kind == 'replay' else _trace_chunk(args))
+
+
+def _replay_cli(sc):
+    import shutil
+    import tempfile
+    from . import c15_real
+    scratch = tempfile.mkdtemp(prefix='c15replay_')
+    try:
+        out = c15_real.run_job((sc, scratch))
+    finally:
+        shutil.rmtree(scratch, ignore_errors=True)
+    if out['problems']:
+        print('run unusable:', out['problems'])
+        return 2
+    _, _, verdicts = c15_real.judge_events(out['events'])
+    rc = 0
+    for e, info, v in zip(out['events'], out['info'], verdicts):
+        print('martinize2', info['argv'], '->', info['nbonds'], 'rubber-band lines; TLC verdict:', v['v'], 'at', v['at'])
+        rc = rc or (0 if v['v'] == 'ok' else 1)
+    return rc
 
 
 def replay(sc):
+    if sc.get('kind') == 'cli':
+        return _replay_cli(sc['scenario'])
     if sc.get('kind') == 'tab':
         rec = run_real(sc['scenario'])
         got = sorted([sorted([b['a'], b['b']]) for b in rec['bonds']])
         print('real bonds', got, 'expected', sc['expected'], rec['excmsg'])
         return 0 if got == sc['expected'] and not rec['exc'] else 1
     scen = sc['scenario']
+    if 'system' in scen:
+        pairs = system_events(scen['system'])
+        _, _, verdicts = _judge(pairs)
+        rc = 0
+        for i, (s, e) in enumerate(pairs, 1):
+            print('call %d molecule %d (%s): %d bonds added, warnings %d, %s -> %s' % (
+                s['call'], s['molecule'], e['role'], len(e['rec']['bonds']), e['rec']['warn'], s['excmsg'], verdicts[i]['v']))
+            rc = rc or (0 if verdicts[i]['v'] == 'ok' else 1)
+        return rc
     e, rec = event_of(scen)
-    ev = common.Evidence(PID, 'quick', 0)
     _, _, verdicts = _judge([(scen, e)])
     print('real run:', {k: rec[k] for k in ('excmsg', 'warn', 'bonds', 'others')})
     print('TLC verdict:', verdicts[1])
@@ -616,7 +1103,7 @@ def replay(sc):
 
 
 def selftest(seed):
-    """Binding demonstration: tampered recordings must be rejected by the judge, a flipped TAB expectation by the replay."""
+    """Binding demonstration: tampered recordings must be rejected by the judges, a flipped TAB expectation by the replay."""
     rng = random.Random(seed)
     batch = []
     while len(batch) < 8:
@@ -628,16 +1115,83 @@ def selftest(seed):
     batch[3][1]['rec']['bonds'][0]['len'] += 2                                 # length off by 2e-5 nm
     batch[5][1]['rec']['bonds'][0]['k'] -= 5                                   # constant off by 5e-6
     batch[6][1]['rec']['bonds'].append(dict(batch[6][1]['rec']['bonds'][0]))   # pair bonded twice
+    batch[7][1]['rec']['bonds'][0]['ft'] += 1                                  # another bond function type
+    # history: a second call that adds nothing / a molecule with NaN coordinates that got a network / no warning
+    ssc = None
+    while ssc is None:
+        cand = make_system(rng)
+        roles = [m['role'] for m in cand['mols']]
+        if cand['calls'] == 2 and 'nan' in roles and 'plain' in roles:
+            pairs = system_events(cand)
+            plain2 = [i for i, (s, e) in enumerate(pairs) if s['call'] == 1 and e['role'] == 'plain' and len(e['rec']['bonds']) >= 1]
+            if plain2:
+                ssc = cand
+    k0 = len(batch)
+    nan1 = next(i for i, (s, e) in enumerate(pairs) if e['role'] == 'nan')
+    donor = pairs[plain2[0]][1]['rec']['bonds'][0]
+    pairs[plain2[0]][1]['rec']['bonds'] = []                                   # the second application added nothing
+    pairs[nan1][1]['rec']['warn'] = 0                                          # no warning for the NaN molecule
+    nan2 = next(i for i, (s, e) in enumerate(pairs) if e['role'] == 'nan' and s['call'] == 1)
+    sel = [i + 1 for i, a in enumerate(pairs[nan2][1]['m']['atoms']) if a['sel']]
+    pairs[nan2][1]['rec']['bonds'] = [dict(donor, a=sel[0], b=sel[-1] if len(sel) > 1 else sel[0] % len(pairs[nan2][1]['m']['atoms']) + 1)]
+    batch += pairs
     _, _, verdicts = _judge(batch)
     got = {i: verdicts[i]['v'] for i in verdicts if verdicts[i]['v'] != 'ok'}
     want = {2: 'qualifying-pair-without-bond', 4: 'length-is-not-the-distance-to-5-decimals',
-            6: 'constant-is-not-the-capped-decayed-base', 7: 'pair-bonded-more-than-once'}
-    assert got == want, got
+            6: 'constant-is-not-the-capped-decayed-base', 7: 'pair-bonded-more-than-once', 8: 'bond-function-type-not-as-documented',
+            k0 + plain2[0] + 1: 'qualifying-pair-without-bond', k0 + nan1 + 1: 'undefined-coordinates-without-warning',
+            k0 + nan2 + 1: 'network-built-despite-undefined-coordinates'}
+    assert got == want, (got, want)
     res = tlc.run('ElasticNet', TAB_CFG, consts=TAB_CONSTS['quick'], dump=True)
     rows = [st for st in res.states() if (0, 0) not in st['out'] and st['out']][:5]
     rows[2] = dict(rows[2], out=frozenset(list(rows[2]['out'])[1:]))
-    n, bad = _replay_chunk((rows, seed))[:2]
+    n, bad = _replay_chunk((rows, seed, False))[:2]
     assert n == 5 and len(bad) == 1, bad
+    # command line: the files of one real run, tampered
+    import copy
+    import shutil
+    import tempfile
+    from . import c15_real
+    c15_real.preload()
+    scratch = tempfile.mkdtemp(prefix='c15self_')
+    try:
+        plan = {(sc['fam'], sc['layout']): sc for sc in c15_real.plan('quick', seed)}
+        out = c15_real.run_job((plan[('cli-unit', 'IJ')], scratch))
+        dec = c15_real.run_job((dict(plan[('cli-thr', 'IJ')], thr=None), scratch))
+        off = c15_real.run_job((plan[('cli-off', 'W')], scratch))
+    finally:
+        shutil.rmtree(scratch, ignore_errors=True)
+    assert not out['problems'] and not dec['problems'] and not off['problems'], (out['problems'], dec['problems'], off['problems'])
+    base, dbase, obase = out['events'][0], dec['events'][0], off['events'][0]
+    assert len(base['f']['bonds']) > 10 and len(dbase['f']['bonds']) > 10 and not obase['f']['bonds']
+    cases = [('untouched', base)]
+
+    def tamper(name, src, fn):
+        e = copy.deepcopy(src)
+        fn(e)
+        cases.append((name, e))
+    tamper('line removed', base, lambda e: e['f']['bonds'].pop(3))
+    tamper('line doubled', base, lambda e: e['f']['bonds'].append(dict(e['f']['bonds'][0])))
+    tamper('length +0.0005 nm', base, lambda e: e['f']['bonds'][2].update(len=e['f']['bonds'][2]['len'] + 50))
+    tamper('constant +1', base, lambda e: e['f']['bonds'][2].update(k=e['f']['bonds'][2]['k'] + 1 * MICRO))
+    tamper('region list widened by the judge only', base, lambda e: e['o'].update(regions=[[3, 8], [8, 16]]))
+    tamper('separation one more', base, lambda e: e['o'].update(rmd=e['o']['rmd'] + 1))
+    tamper('cut-off 0.01 nm shorter', base, lambda e: e['o'].update(up=e['o']['up'] - 100))
+    tamper('bead moved by 0.05 A', base, lambda e: e['f']['atoms'][e['f']['bonds'][0]['a'] - 1]['pos'].__setitem__(0, e['f']['atoms'][e['f']['bonds'][0]['a'] - 1]['pos'][0] + 50))
+    tamper('chain criterion dropped by the judge only', dbase, lambda e: e['o'].update(unit='molecule'))
+    tamper('selection narrowed by the judge only', dbase, lambda e: e['o'].update(names=['BB']))
+    tamper('minimum force raised by the judge only', dbase, lambda e: e['o'].update(minf=e['o']['base'] - 5 * MICRO))
+    tamper('decayed constant -0.01', dbase, lambda e: e['f']['bonds'][7].update(k=e['f']['bonds'][7]['k'] - 10000)
+           if e['f']['bonds'][7]['k'] < e['o']['base'] else e['f']['bonds'][3].update(k=e['f']['bonds'][3]['k'] - 10000))
+    tamper('network without request', obase, lambda e: e['f']['bonds'].append({'a': 1, 'b': 9, 'len': 5000, 'k': 700 * MICRO}))
+    tamper('rubber-band line inside a conditional block', base, lambda e: e['f'].update(strays=1))
+    tamper('second molecule split off', base, lambda e: [a.update(mol=2) for a in e['f']['atoms'] if a['chain'] == 'B'])
+    _, _, cv = c15_real.judge_events([e for _, e in cases])
+    cgot = {name: v['v'] for (name, _), v in zip(cases, cv)}
+    assert cgot['untouched'] == 'ok', cgot
+    wrong = [k for k, v in cgot.items() if k != 'untouched' and v == 'ok']
+    assert not wrong, (wrong, cgot)
     print('selftest C15: tampered recordings rejected by TLC: %s; flipped TAB expectation reported by the replay: '
-          'expected %s got %s' % (sorted(got.items()), bad[0]['expected'], bad[0]['got']))
+          'expected %s got %s; tampered files of real command-line runs rejected by TLC: %s' % (
+              sorted(got.items()), bad[0]['expected'], bad[0]['got'], sorted(cgot.items())))
     return 0
